@@ -4,6 +4,9 @@
 //       | v:a,b,c      intVector holding a,b,c                      (v: alone is the empty vector)
 //       | x:a,b,c      the integer expression  tmp + 2  with tmp = (a-2,b-2,c-2)
 //       | w:K0,K1,..   the integer expression  end - tmp  with tmp = (K0,K1,..): entries len-1-K
+//       | u:VE:a,b,c   the integer expression VE over the intVector v = (a,b,c), e.g. u:(9-v):1,3,0  (menu VSHAPES below)
+//     a scalar selector i:E may be a rich expression of the first XMENU2 shapes of drv_views.h (letter Y)
+//   cix S0 S1 ...     the same call made on a const reference to the view (const overload of operator())
 // The op does not change the current view (an IndexedArray is an expression, not an Array).  Answer:
 //   err <class>                                  the constructor of the IndexedArray threw
 //   ok r=<rank> d=<extents> e=<E> w=<W> z=<Z>
@@ -14,20 +17,60 @@
 //     Z  the same for the scalar assignment `A(S0,...) = -7`
 // Each position's C++ type is chosen at run time from a menu compiled once (letters):
 //   I int   E end-k   r RangeIndex<int,int,int>   R RangeIndex<end-k,end-k,int>   A __   V intVector   X tmp+2   W end-tmp
-// rank 1: V X W;  rank 2: every mixture of the eight;  rank 3: every mixture of I E R A V (a plain range is passed
-// as R through end-(len-1-k));  rank 4: the fixed menu IX_MENU4 (letters I E R A V).
+//   U<n> the vector expression number n of VSHAPES   Y<n> the rich scalar expression number n of XSHAPES
+// rank 1: V X W and every U;  rank 2: every mixture of the eight plain letters, the first NVMENU2 U's with a partner
+// out of I E R A V (either order), a Y with the partner V (either order);  rank 3: every mixture of I E R A V (a plain
+// range is passed as R through end-(len-1-k));  rank 4: the fixed menu IX_MENU4 (letters I E R A V).
 #ifndef VERIF_DRV_VIEWS_IDX_H
 #define VERIF_DRV_VIEWS_IDX_H
 #include "drv_views.h"
 #include <type_traits>
 
-enum { L_I = 0, L_E = 1, L_r = 2, L_R = 3, L_A = 4, L_V = 5, L_X = 6, L_W = 7 };
+// rank-1 integer expressions over one intVector V (constants K): the first NVMENU2 are also compiled for rank 2
+#define VS_0 "(#-v)"
+#define VE_0(V, K) ((K)[0] - (V))                            // BinaryOpScalarLeft<Subtract>: the reversal idiom (n-1)-idx
+#define VS_1 "(v*#)"
+#define VE_1(V, K) ((V) * (K)[0])
+#define VS_2 "((end-v)/#)"
+#define VE_2(V, K) ((adept::end - (V)) / (K)[0])
+#define VS_3 "(v+v)"
+#define VE_3(V, K) ((V) + (V))                               // BinaryOperation of two arrays
+#define VS_4 "(#+v)"
+#define VE_4(V, K) ((K)[0] + (V))
+#define VS_5 "(#*v)"
+#define VE_5(V, K) ((K)[0] * (V))
+#define VS_6 "(v/#)"
+#define VE_6(V, K) ((V) / (K)[0])
+#define VS_7 "(v-#)"
+#define VE_7(V, K) ((V) - (K)[0])
+#define VS_8 "(end-(v*#))"
+#define VE_8(V, K) (adept::end - ((V) * (K)[0]))
+#define VS_9 "((#-v)-end)"
+#define VE_9(V, K) (((K)[0] - (V)) - adept::end)
+#define VS_10 "(#/v)"
+#define VE_10(V, K) ((K)[0] / (V))                           // BinaryOpScalarLeft<Divide>
+#define VS_11 "(v<#)"
+#define VE_11(V, K) (adept::min((V), (K)[0]))
+#define VS_12 "(#>v)"
+#define VE_12(V, K) (adept::max((K)[0], (V)))
+#define VSHAPES(X) X(0) X(1) X(2) X(3) X(4) X(5) X(6) X(7) X(8) X(9) X(10) X(11) X(12)
+enum { NVMENU = 13, NVMENU2 = 4 };
+inline const char* const* vshape_table() {
+#define X(ID) VS_##ID,
+  static const char* const t[] = { VSHAPES(X) 0 };
+#undef X
+  return t;
+}
+
+enum { L_I = 0, L_E = 1, L_r = 2, L_R = 3, L_A = 4, L_V = 5, L_X = 6, L_W = 7, L_U0 = 8, L_Y0 = L_U0 + NVMENU, L_END = L_Y0 + XMENU2 };
 
 struct ISel {
   int letter;            // L_*
   Tok b, e; int s;       // scalar: b; range: b, e, s
-  std::vector<int> ent;  // V: entries; X: entries; W: the K's
+  std::vector<int> ent;  // V: entries; X: entries; W: the K's; U: the entries of v
+  int c[3];              // U: the constants of the expression
 };
+inline bool& ix_cf() { static bool v = false; return v; }   // the current call goes through the const overload
 
 inline bool parse_entries(const std::string& t, std::vector<int>& out) {
   out.clear();
@@ -39,23 +82,43 @@ inline bool parse_entries(const std::string& t, std::vector<int>& out) {
 
 // rank: the rank of the indexed array decides which range letter a plain range gets
 inline bool parse_isel(const std::string& t, int rank, ISel& o) {
-  o.s = 1;
+  o.s = 1; o.c[0] = o.c[1] = o.c[2] = 0;
   if (t.size() >= 2 && t[1] == ':' && (t[0] == 'v' || t[0] == 'x' || t[0] == 'w')) {
     o.letter = t[0] == 'v' ? L_V : t[0] == 'x' ? L_X : L_W;
     return parse_entries(t.substr(2), o.ent);
   }
+  if (t.size() >= 2 && t[0] == 'u' && t[1] == ':') {
+    std::vector<std::string> p = split(t.substr(2), ':');
+    std::string shape; std::vector<int> consts;
+    if (p.size() != 2 || !parse_shape(p[0], shape, consts) || consts.size() > 3) return false;
+    if (shape.find('v') == std::string::npos) return false;
+    const char* const* tab = vshape_table();
+    for (int id = 0; tab[id]; ++id)
+      if (shape == tab[id]) {
+        o.letter = L_U0 + id;
+        for (size_t j = 0; j < consts.size(); ++j) o.c[j] = consts[j];
+        return parse_entries(p[1], o.ent);
+      }
+    throw BadOp();
+  }
   Arg a;
   if (!parse_arg(t, a)) return false;
-  o.b = a.b; o.e = a.e; o.s = a.s;
+  o.b = a.b; o.e = a.e;
   if (a.kind == 3) { o.letter = L_A; return true; }
-  if (a.kind == 0) { o.letter = a.b.from_end ? L_E : L_I; return true; }
-  bool any_end = a.b.from_end || a.e.from_end;
+  if (a.kind == 0) {
+    if (a.b.cls == 2) { if (a.b.shape >= XMENU2) throw BadOp(); o.letter = L_Y0 + a.b.shape; return true; }
+    o.letter = a.b.cls == 1 ? L_E : L_I;
+    return true;
+  }
+  if (arg_rich(a)) throw BadOp();          // rich end points / strides are driven through `slice`, not through `ix`
+  o.s = a.s.k;
+  bool any_end = a.b.cls == 1 || a.e.cls == 1;
   o.letter = (rank <= 2 && !any_end) ? L_r : L_R;
   return true;
 }
 
-// the rank-4 menu, as base-8 numbers with position 0 in the lowest digit
-#define IX_CODE4(a, b, c, d) ((a) + 8 * (b) + 64 * (c) + 512 * (d))
+// the rank-4 menu, as base-32 numbers with position 0 in the lowest digit
+#define IX_CODE4(a, b, c, d) ((a) + 32 * (b) + 1024 * (c) + 32768 * (d))
 #define IX_MENU4_LIST \
   M4(L_I, L_E, L_V, L_A) M4(L_E, L_I, L_E, L_V) M4(L_V, L_I, L_E, L_I) M4(L_A, L_V, L_I, L_E) \
   M4(L_I, L_V, L_R, L_E) M4(L_V, L_V, L_V, L_V) M4(L_E, L_A, L_V, L_V) M4(L_R, L_V, L_A, L_I) \
@@ -63,22 +126,30 @@ inline bool parse_isel(const std::string& t, int rank, ISel& o) {
 #define M4(a, b, c, d) IX_CODE4(a, b, c, d),
 constexpr int ix_menu4[] = { IX_MENU4_LIST -1 };
 #undef M4
-constexpr int ix_pow8(int k) { return k == 0 ? 1 : 8 * ix_pow8(k - 1); }
+constexpr int ix_pow8(int k) { return k == 0 ? 1 : 32 * ix_pow8(k - 1); }
 constexpr bool ix_prefix_in_menu4(int code, int k, int i = 0) {
   return ix_menu4[i] < 0 ? false : (ix_menu4[i] % ix_pow8(k) == code ? true : ix_prefix_in_menu4(code, k, i + 1));
 }
 // a translation unit may restrict itself to some first letters (bit L of IX_FIRST_MASK) to split the compile time
 // (the mask is a template argument of the dispatcher: differently restricted instantiations are different types)
 #ifndef IX_FIRST_MASK
-#define IX_FIRST_MASK 0xff
+#define IX_FIRST_MASK 0x7fffffff
 #endif
 // is letter L compiled at position K (K letters `code` chosen so far) of a rank-R pattern?
+constexpr bool ix_is_u2(int L) { return L >= L_U0 && L < L_U0 + NVMENU2; }
+constexpr bool ix_is_y(int L) { return L >= L_Y0 && L < L_END; }
+constexpr bool ix_partner(int L) { return L == L_I || L == L_E || L == L_R || L == L_A || L == L_V; }
+constexpr bool ix_pair_ok(int F, int L) {
+  return (F < L_U0 && L < L_U0) || (ix_is_u2(F) && ix_partner(L)) || (ix_is_u2(L) && ix_partner(F))
+      || (ix_is_y(F) && L == L_V) || (ix_is_y(L) && F == L_V);
+}
+constexpr bool ix_is_vec(int L) { return L >= L_V && L < L_Y0; }
 constexpr bool ix_letter_ok(int Mask, int R, int K, int code, int L) {
   return (K == 0 && !((Mask >> L) & 1)) ? false
-       : R == 1 ? (L >= L_V)
-       : R == 2 ? true
+       : R == 1 ? ix_is_vec(L)
+       : R == 2 ? (K == 0 ? true : ix_pair_ok(code, L))
        : R == 3 ? (L == L_I || L == L_E || L == L_R || L == L_A || L == L_V)
-       : ix_prefix_in_menu4(code + L * ix_pow8(K), K + 1);
+       : (L < L_U0 && ix_prefix_in_menu4(code + L * ix_pow8(K), K + 1));
 }
 
 // ------------------------------------------------------------------ the three uses of one IndexedArray expression
@@ -113,7 +184,7 @@ template <class IA> std::string describe_ix(IA&& ia) {
       for (int k = 0; k < N; ++k) ix[k] = 0;
       long j = 0;
       for (;;) {
-        es << (j ? "," : "") << elem(B, ix);
+        es << (j ? "," : "") << El<N>::nc(B, ix);
         ++j;
         int k = N - 1;
         while (k >= 0 && ++ix[k] == d[k]) { ix[k] = 0; --k; }
@@ -149,13 +220,13 @@ template <class IA> std::string describe_ix(IA&& ia) {
 
 // ------------------------------------------------------------------ run-time choice of the argument types
 struct IxBad {
-  template <typename... As> static std::string go(As&...) { throw BadOp(); }
+  template <typename... As> static std::string go(const As&...) { throw BadOp(); }
 };
 template <int Mask, int R, int K, int Code, bool HasVec, typename... As> struct IxDisp;
 template <int Mask, int R, int K, int Code, bool HasVec, int L, typename... As> struct IxNext {
   // the dispatcher for the next position when letter L is compiled here, IxBad otherwise
   typedef typename std::conditional<ix_letter_ok(Mask, R, K, Code, L),
-            IxDisp<Mask, R, K + 1, Code + L * ix_pow8(K), (HasVec || L >= L_V), As...>, IxBad>::type type;
+            IxDisp<Mask, R, K + 1, Code + L * ix_pow8(K), (HasVec || ix_is_vec(L)), As...>, IxBad>::type type;
 };
 template <int Mask, int R, int K, int Code, bool HasVec, typename... As> struct IxDisp {
   static std::string go(Array<R,int>& a, const std::vector<ISel>& t, const As&... as) {
@@ -185,13 +256,30 @@ template <int Mask, int R, int K, int Code, bool HasVec, typename... As> struct 
         auto v = adept::end - tmp;
         return IxNext<Mask, R, K, Code, HasVec, L_W, As..., decltype(v)>::type::go(a, t, as..., v);
       }
+      // vector expressions and rich scalars are built inside the call expression (nested expression objects refer to temporaries)
+#define X(ID) case L_U0 + ID: { \
+        intVector tmp((int)x.ent.size()); \
+        for (size_t j = 0; j < x.ent.size(); ++j) tmp((int)j) = x.ent[j]; \
+        typedef decltype(VE_##ID(tmp, x.c)) VT; \
+        return IxNext<Mask, R, K, Code, HasVec, L_U0 + ID, As..., VT>::type::go(a, t, as..., VE_##ID(tmp, x.c)); }
+      VSHAPES(X)
+#undef X
+#define X(ID) case L_Y0 + ID: { \
+        typedef decltype(XE_##ID(x.b.c)) XT; \
+        return IxNext<Mask, R, K, Code, HasVec, L_Y0 + ID, As..., XT>::type::go(a, t, as..., XE_##ID(x.b.c)); }
+      XSHAPES2(X)
+#undef X
       default: throw BadOp();
     }
   }
 };
+template <class IA> inline std::string describe_ix_c(const IA& ia) { return describe_ix(const_cast<IA&>(ia)); }
 template <int Mask, int R, int Code, typename... As> struct IxDisp<Mask, R, R, Code, true, As...> {
   static std::string go(Array<R,int>& a, const std::vector<ISel>&, const As&... as) {
-    try { return describe_ix(a(as...)); }
+    try {
+      if (ix_cf()) { const Array<R,int>& ca = a; return describe_ix_c(ca(as...)); }
+      return describe_ix(a(as...));
+    }
     catch (index_out_of_bounds&) { return "err index_out_of_bounds"; }     // thrown by the constructor
   }
 };
@@ -201,6 +289,7 @@ template <int Mask, int R, int Code, typename... As> struct IxDisp<Mask, R, R, C
 
 template <int R> inline std::vector<ISel> ix_parse(const std::vector<std::string>& w) {
   if ((int)w.size() != R + 1) throw BadOp();
+  ix_cf() = (w[0] == "cix");
   std::vector<ISel> t(R);
   for (int k = 0; k < R; ++k) if (!parse_isel(w[k + 1], R, t[k])) throw BadOp();
   return t;
